@@ -42,6 +42,7 @@ struct SockM {
 	nng_socket s    = NNG_SOCKET_INITIALIZER;
 	int        proto = 0;
 	bool       raw   = false;
+	bool       connected = false; // has (had) a pipe: option sets are applied per pipe and may fail half-way (documented in pub.c / bus.c)
 };
 struct CtxM {
 	bool    live = false;
@@ -117,6 +118,8 @@ struct World {
 	nng_http_client     *hcl     = nullptr;
 	std::string          huri    = "/";
 	std::map<std::string, std::string> hhdr;
+	std::vector<nng_socket> peers; // harness-owned peers connected to the sockets (set up with no fault armed)
+	int  npeer = 0;
 	int  pid_salt = 0;
 	long faults = 0, enomem = 0, calls = 0, recovered = 0;
 	int  opidx = 0;
@@ -249,6 +252,8 @@ final_cleanup(World &W)
 	for (auto &S : W.sock)
 		if (S.live)
 			nng_socket_close(S.s);
+	for (auto &pk : W.peers)
+		nng_socket_close(pk);
 	for (auto &a : W.aio)
 		if (a)
 			nng_aio_free(a);
@@ -626,6 +631,38 @@ exec_c20p(const vcase *vc)
 				vr_fail("C20:later-call-misbehaves", "nng_socket_raw -> %d raw=%d (opened raw=%d)", rv, (int) r2, (int) W.sock[s].raw);
 			continue;
 		}
+		if (n == "sconnect") {
+			// a peer of the matching protocol connects over inproc (no fault armed): the socket now has a live pipe with its
+			// per-pipe queues, so that later option sets / resizes / subscriptions reach the allocations made per pipe
+			if (s < 0 || s > 3 || !W.sock[s].live || W.peers.size() >= 6)
+				continue;
+			static const int kPeer[] = {0, 1, 3, 2, 5, 4, 7, 6, 9, 8, 10};
+			nng_socket       pk      = NNG_SOCKET_INITIALIZER;
+			char             ub[64];
+			snprintf(ub, sizeof ub, "inproc://c20p-peer-%d", W.npeer++);
+			if (kP[kPeer[W.sock[s].proto]].open(&pk) != 0)
+				continue;
+			if (kPeer[W.sock[s].proto] == 3)
+				nng_sub0_socket_subscribe(pk, "", 0);
+			if (nng_listen(W.sock[s].s, ub, NULL, 0) != 0 || nng_dial(pk, ub, NULL, 0) != 0) {
+				nng_socket_close(pk);
+				continue;
+			}
+			W.peers.push_back(pk);
+			W.sock[s].connected = true;
+			vs_settle();
+			vr_tag("socket_connected");
+			if (a1) { // something sits in the queues: one message each way where the protocol allows a spontaneous send
+				nng_msg *m = NULL;
+				if (nng_msg_alloc(&m, 5) == 0 && nng_sendmsg(pk, m, NNG_FLAG_NONBLOCK) != 0)
+					nng_msg_free(m);
+				m = NULL;
+				if (nng_msg_alloc(&m, 5) == 0 && nng_sendmsg(W.sock[s].s, m, NNG_FLAG_NONBLOCK) != 0)
+					nng_msg_free(m);
+				vs_settle();
+			}
+			continue;
+		}
 		if (n == "sbuf") {
 			if (s < 0 || s > 3 || !W.sock[s].live)
 				continue;
@@ -638,7 +675,9 @@ exec_c20p(const vcase *vc)
 			    [&](long j) {
 				    int cur = -2;
 				    nng_socket_get_int(W.sock[s].s, opt, &cur);
-				    if (cur != old)
+				    // (with live pipes the new depth is recorded first and then applied pipe by pipe; the protocols document that a
+				    // failure half-way cannot be undone - the read-back is only judged for sockets without pipes)
+				    if (cur != old && !W.sock[s].connected)
 					    vr_fail("C20:state-changed-by-failed-call", "set %s to %d failed with NNG_ENOMEM (allocation %ld) but the option now reads %d (was %d)", opt, v, j, cur, old);
 			    });
 			int cur = -2;
@@ -1126,7 +1165,14 @@ gen_op()
 		break;
 	}
 	case 3: { // sockets, contexts, endpoints
-		switch (*pbt::range<int>(0, 13)) {
+		switch (*pbt::range<int>(0, 15)) {
+		case 14:
+		case 15: { // a connected socket whose buffers are then resized (per-pipe queues exist)
+			int bs = *pbt::range<int>(0, 3);
+			t << "sclose " << bs << "\nsopen " << bs << " " << *pbt::range<int>(0, 10) << " " << *pbt::welem<int>({{3, 0}, {1, 1}}) << "\nsconnect " << bs << " " << *pbt::range<int>(0, 1) << "\nsbuf " << bs << " "
+			  << *gen::element(0, 1, 2, 3, 16, 100, 8192) << " " << *pbt::range<int>(0, 1);
+			break;
+		}
 		case 0:
 		case 1:
 		case 2: t << "sopen " << *pbt::range<int>(0, 3) << " " << *pbt::range<int>(0, 10) << " " << *pbt::welem<int>({{3, 0}, {1, 1}}); break;
@@ -1143,7 +1189,12 @@ gen_op()
 		case 9: t << "dcreate " << *pbt::range<int>(0, 3) << " " << *pbt::range<int>(0, 3) << " " << *pbt::range<int>(0, 5) << " " << *pbt::range<int>(0, 2); break;
 		case 10: t << "lcreate " << *pbt::range<int>(0, 3) << " " << *pbt::range<int>(0, 3) << " " << *pbt::range<int>(0, 5) << " " << *pbt::range<int>(0, 2); break;
 		case 11: t << "lstart " << *pbt::range<int>(0, 3); break;
-		case 12: t << "sbuf " << *pbt::range<int>(0, 3) << " " << *gen::element(0, 1, 2, 3, 16, 100, 8192) << " " << *pbt::range<int>(0, 1); break;
+		case 12:
+			if (*pbt::welem<int>({{1, 0}, {1, 1}})) {
+				t << "sconnect " << *pbt::range<int>(0, 3) << " " << *pbt::range<int>(0, 1);
+				break;
+			}
+			t << "sbuf " << *pbt::range<int>(0, 3) << " " << *gen::element(0, 1, 2, 3, 16, 100, 8192) << " " << *pbt::range<int>(0, 1); break;
 		default: t << "epclose " << *pbt::range<int>(0, 3); break;
 		}
 		break;
